@@ -510,9 +510,40 @@ VCLAUSE(kde, 500, 1500, 30000, "weights differ by more than a factor 10, or the 
 	double bw = automatic ? 0.0 : dx * std::pow(10.0, s.chance(0.2) ? s.uniform(-6, 0.2) : s.uniform(std::log10(1.5), std::log10(149.0)));
 	if(!automatic && bw < dx)
 		c.cls("kde_bandwidth_below_grid_step");
+	// "arbitrary weighted samples, windows": a single datum, and data lying (partly) outside the window on either side. Drawn last so that
+	// saved cases of earlier decoders still decode to the same sample (an exhausted sequence yields variant 0).
+	int variant = s.pick({6, 1, 1, 1, 1});	 // as generated, single datum, some beyond xMax, some below xMin, some beyond both ends
+	if(variant == 1)
+	{
+		data.resize(1);
+		N = 1;
+		if(!(data[0].weight > 0))
+			data[0].weight = 1.0;
+		wmin = wmax = data[0].weight;
+		c.cls("kde_single_datum");
+	}
+	else if(variant >= 2)
+	{
+		// keep one positively weighted datum inside the window (the first such): a sample wholly outside has no density inside to normalise
+		size_t keep = 0;
+		while(keep < data.size() && !(data[keep].weight > 0))
+			keep++;
+		int moved = 0;
+		for(size_t i = 0; i < data.size(); i++)
+		{
+			if(i == keep || !s.chance(0.3))
+				continue;
+			double far = W * std::pow(10.0, s.uniform(-3, 0.5)) * s.unit();
+			bool right = variant == 2 || (variant == 4 && s.coin());
+			data[i].value = right ? xmax + far : xmin - far;
+			moved++;
+		}
+		if(moved)
+			c.cls(variant == 2 ? "kde_data_beyond_xmax" : (variant == 3 ? "kde_data_below_xmin" : "kde_data_outside_both_ends"));
+	}
 	bool edge = false;
 	for(auto& d : data)
-		if(d.value - xmin < (bw > 0 ? bw : 0.05 * W) || xmax - d.value < (bw > 0 ? bw : 0.05 * W))
+		if(d.value - xmin < (bw > 0 ? bw : 0.05 * W) || xmax - d.value < (bw > 0 ? bw : 0.05 * W))	// includes data outside the window
 			edge = true;
 	if(wmax > 10 * wmin || (bw > 0 && bw < 3 * dx) || edge)
 		c.nt();
